@@ -498,7 +498,7 @@ def pure_body_expr(fn: ast.FunctionDef) -> Optional[ast.AST]:
 
 
 def inline_pure_exprs(index: RepoIndex, module: Module, cls, expr: ast.AST,
-                      depth: int = 3) -> ast.AST:
+                      depth: int = 3, cross: tuple = ()) -> ast.AST:
     """replace calls `self.m(args)` / `helper(args)` of pure one-expression helpers by the
     helper's expression with the parameters substituted (on a copy)"""
     if depth <= 0:
@@ -514,6 +514,8 @@ def inline_pure_exprs(index: RepoIndex, module: Module, cls, expr: ast.AST,
             skip_self = False
             if isinstance(c.func, ast.Name):
                 r = module.functions.get(c.func.id)
+                if r is None and c.func.id in cross:
+                    r = index.resolve_name(module, c.func.id)
                 if isinstance(r, Func) and r.cls is None and not r.node.decorator_list:
                     target = r
             elif isinstance(c.func, ast.Attribute) and isinstance(c.func.value, ast.Name) \
@@ -549,7 +551,7 @@ def inline_pure_exprs(index: RepoIndex, module: Module, cls, expr: ast.AST,
             if comp_targets & free:
                 return c
             out = _SubstNames(bound).visit(copy.deepcopy(e))
-            return inline_pure_exprs(index, target.module, target.cls, out, depth - 1)
+            return inline_pure_exprs(index, target.module, target.cls, out, depth - 1, cross)
     return ast.fix_missing_locations(T().visit(copy.deepcopy(expr)))
 
 
